@@ -141,14 +141,26 @@ def check_case(ctx, case):
                     res = a.m_eff(variant)
                 elif kind == 'plateau':
                     aa = build(case)
-                    res = aa.plateau(list(case['range']), method=case['method'], auto_gamma=True)
+                    # a stored plateau range (set_prange, Corr(..., prange=), inherited through arithmetic) only stands in
+                    # for a missing argument: an explicit range wins
+                    if case.get('stored'):
+                        how = case.get('stored_how', 'set')
+                        if how == 'set':
+                            aa.set_prange(list(case['stored']))
+                        elif how == 'ctor':
+                            aa = pe.Corr(aa.content, prange=list(case['stored']))
+                        else:
+                            aa.set_prange(list(case['stored']))
+                            aa = 1.0 * aa
+                    arg = None if case.get('explicit') is False else list(case['range'])
+                    res = aa.plateau(arg, method=case['method'], auto_gamma=True)
         exc = None
     except Exception as e:
         res, exc = None, e
     if snap_obs(a) != sa:
         probs.append(('violation', 'operand-mutated', kind))
     if kind == 'plateau':
-        lo, hi = case['range']
+        lo, hi = case['range'] if case.get('explicit') is not False else case['stored']
         items = [c[t] for t in range(lo, hi + 1) if c[t] is not None]
         if not items:
             if exc is None:
@@ -279,6 +291,11 @@ def gen_case(ctx, pattern=None, T=None):
         lo = rng.randrange(T)
         case['range'] = [lo, rng.randint(lo, T - 1)]
         case['method'] = rng.choice(['fit', 'avg', 'average', 'mean'])
+        if rng.random() < 0.5:
+            lo2 = rng.randrange(T)
+            case['stored'] = [lo2, rng.randint(lo2, T - 1)]
+            case['stored_how'] = rng.choice(['set', 'ctor', 'arith'])
+            case['explicit'] = rng.random() < 0.7
     case['vals'] = gen_vals(rng, T, shape, pattern)
     case['shape'] = shape
     return case
